@@ -495,8 +495,16 @@ pub fn exec_call(call: &Call, roots: &Roots, txn: &mut TransactionMut, ctx: &mut
         Call::MInsert { ty, key, val } => {
             let Some((h, d)) = pick(&types, &["map"], *ty) else { return vec![Effect::Nop] };
             let Handle::Map(m) = h else { return vec![Effect::Nop] };
-            let (inp, item) = make_in(val, ctx, *d + 1);
             let k = key_name(*key);
+            // `Same`: the plain value the key shows right now is written again (a new entry with equal content)
+            let again = match (val, m.get(txn, &k)) {
+                (Val::Same, Some(Out::Any(a))) => Some(a),
+                _ => None,
+            };
+            let (inp, item) = match again {
+                Some(a) => (In::Any(a.clone()), Item::Prim(any_str(&a))),
+                None => make_in(val, ctx, *d + 1),
+            };
             ctx.log.push(format!("r{} {}.insert({}, {:?})", ctx.rid, cid(h), k, item));
             let out = match sub_doc(&item) {
                 Some(d) => Out::YDoc(m.insert(txn, k.clone(), d)),
